@@ -1,6 +1,10 @@
 """Fixed case counts per tier (counts, not wall budgets: one seed explores the same cases)."""
 
 TIERS = {
+    "C17": {
+        "quick": {"cases": 24000, "configs": 4, "wall": 600},
+        "thorough": {"cases": 200000, "configs": 16, "wall": 7200},
+    },
     "C04": {
         "quick": {"cases": 120000, "m_seeded": 2, "flip_n": 8, "wall": 600, "echo": 48},
         "thorough": {"cases": 1500000, "m_seeded": 10, "flip_n": 24, "wall": 7200, "echo": 256},
@@ -46,6 +50,21 @@ def _faults_c01(wstats, clock, probes, sites):
 
 
 META = {
+    "C17": {
+        "rule": "cases = (seed k of every SeedType, sequence of 1-8 schema specs without unfixed uuid4/datetime/date); "
+                "each case is executed in every interpreter configuration (exec'd interpreters with distinct "
+                "PYTHONHASHSEED) and, inside each, four times: plain, repeated, with seeded non-generating public "
+                "operations interleaved between the fakes, and on freshly rebuilt equal schemas; a sample is re-run "
+                "late in the process (warm). evaluations = set_seed+fake sequences executed. distinct+nontrivial = "
+                "distinct (tuple of schema shape signatures, seed type).",
+        "real_vs_stub": {"real": REAL + ["stdlib random (Mersenne Twister) - it is part of what must be reproducible"],
+                         "stub": ["nothing is stubbed in this check; the simulator owns PYTHONHASHSEED, process age and the interleaved history"]},
+        "assumptions": [
+            "only CPython 3.12.1 is available: 'interpreter configurations' = hash seeds and fresh/warm processes, not versions",
+            "schemas with unfixed uuid4/datetime/date are excluded, as the property states",
+            "a cross-interpreter difference that disappears when every regex with a negated class is replaced by a plain str is attributed to the known finding KF-C17-1",
+        ],
+    },
     "C04": {
         "rule": "cases = (schema spec S, plain value v) with v = witness | partial dict of it at any depth | perturbed "
                 "witness | unrelated value; R = S % v through the public operator; each R explored under draw "
